@@ -108,8 +108,17 @@ def check_case(case):
     # (Naming ONE residue in two ways inside one list is outside the property as read here: the library orients and
     # de-duplicates pairs by the names they carry - see C06 ASSUMPTIONS.)
     style = [rng.random() for _ in nts]
+    objects = rng.random() < 0.4   # lists of an external-tool import whose residues are the structure's own Residue3D objects
+    import dataclasses
+    ghost3d = dataclasses.replace(nts[0], label=None, auth=ResidueAuth("Zz", 9999, None, "G")) if nts else None
+    external = rng.random() < 0.4  # route: adapter.extract_secondary_structure_from_external instead of Mapping2D3D directly
 
     def res(i):
+        if objects:
+            # the structure's own residue objects (what the DSSR import hands over); a dangling entry names a residue object of
+            # another structure.  One list holds EITHER names (Residue) OR objects (Residue3D): no importer mixes the two kinds, and
+            # comparing a Residue3D with a plain Residue raises AttributeError (no `model`) - outside the property as read here
+            return ghost3d if i < 0 else nts[i]
         if i < 0:
             return ghost
         if nts[i].label is not None and nts[i].auth is not None and style[i] < 0.3:
@@ -122,8 +131,18 @@ def check_case(case):
         v = SAENGER.get((nts[i].one_letter_name + nts[j].one_letter_name, lw))
         return Saenger[v] if v else None
     bps = [BasePair(res(i), res(j), LeontisWesthof[lw], saenger(i, j, lw)) for i, j, lw in entries]
-    m = Mapping2D3D(s, bps, [], find_gaps)
     errs = []
+    if external:
+        from rnapolis.adapter import extract_secondary_structure_from_external
+        from rnapolis.common import BaseInteractions
+        try:
+            s2d, _, m = extract_secondary_structure_from_external(s, BaseInteractions(bps, [], [], [], []), None, find_gaps)
+        except Exception as e:
+            return [f"extract_secondary_structure_from_external raised {type(e).__name__}: {e}"]
+        if (s2d.bpseq, s2d.dotBracket, s2d.extendedDotBracket) != (str(m.bpseq), m.dot_bracket, m.extended_dot_bracket):
+            errs.append("external route: the Structure2D texts are not those of the mapping it returns")
+    else:
+        m = Mapping2D3D(s, bps, [], find_gaps)
     seq, _ = expected_sequence(s, find_gaps)
     index_of = {id(r): k + 1 for k, (_, r) in enumerate(seq) if r is not None}
     try:
